@@ -54,8 +54,11 @@ func gen(t *rapid.T) sw.Scenario {
 			// a submission parked inside the DA call, then a restart: the restart falls between two attempts
 			tg := rapid.SampledFrom([]string{"header", "data"}).Draw(t, "hangtarget")
 			sc.Ops = append(sc.Ops, sw.Op{Kind: "script", Target: tg, Script: []world.SubmitResp{{Kind: "hang"}}},
-				sw.Op{Kind: "tick", N: 1},
-				sw.Op{Kind: rapid.SampledFrom([]string{"restart", "crash"}).Draw(t, "hangrestart")})
+				sw.Op{Kind: "tick", N: 1})
+			// mostly followed by a restart; otherwise the swallowed request has to end by its own deadline
+			if rk := rapid.SampledFrom([]string{"restart", "crash", "restart", "none"}).Draw(t, "hangrestart"); rk != "none" {
+				sc.Ops = append(sc.Ops, sw.Op{Kind: rk})
+			}
 		}
 	}
 	return sc
